@@ -111,6 +111,7 @@ def main():
     seen = set()
     failures = []
     samples = []
+    clause_errors = 0
     while cases < n_target and tried < n_target * 40:
         tried += 1
         try:
@@ -171,8 +172,10 @@ def main():
                             violated = c
                             break
                     except Exception as e:
-                        violated = f"clause error {c[:60]}: {e!r}"
-                        break
+                        # a clause that cannot be evaluated on this input (domain error of the executable rendering) is
+                        # not a verdict: skip the case rather than call it a violation
+                        clause_errors += 1
+                        continue
         if len(samples) < 3:
             samples.append({k: _short(v) for k, v in inputs.items()})
         if violated is not None:
@@ -180,7 +183,8 @@ def main():
                              "result": _short(result)})
             if len(failures) >= 3:
                 break
-    print(json.dumps({"cases": cases, "tried": tried, "distinct": len(seen), "failures": failures, "samples": samples},
+    print(json.dumps({"cases": cases, "tried": tried, "distinct": len(seen), "failures": failures, "samples": samples,
+                      "clause_errors": clause_errors},
                      default=str))
 
 
